@@ -93,11 +93,12 @@ def check_chunk(ctx, cases, obs, base):
                           "harness did not return normally: %s" % json.dumps(o)[:300], case, o)
             continue
         if (base + ci) % 9973 == 11:
-            ctx.sample({"case": {k: case[k] for k in ("vc", "asz", "lp", "lists", "reject", "why", "meaning")}, "obs": o["runs"][0]})
+            ctx.sample({"case": {k: case[k] for k in ("vc", "asz", "lp", "lists", "reject", "why")}, "meaning": case["pred"][0]["meaning"], "obs": o["runs"][0]})
         exp_cls = expected_classes(case)
         for run in o["runs"]:
             r = run["obs"]
             pred = [p for p in case["pred"] if p["fmt"] == run["fmt"]][0]
+            meaning = pred["meaning"]        # per format: an expression may hold a DIE offset
             where = "v%s fmt%s asz%s low_pc %s lists %s" % (run["ver"], run["fmt"], case["asz"], case["lp"], json.dumps(case["lists"])[:500])
             if "outcome" in r:
                 if pred["err"] == "AddOverflow":
@@ -119,9 +120,14 @@ def check_chunk(ctx, cases, obs, base):
                     note_drift(ctx, {"where": "error-kind", "model": pred["err"] if not pred["ok"] else "accepted", "observed": r["err"]})
                 continue
             # written successfully
+            if case["refs"] and r.get("dieoffs") != pred["dieoffs"]:
+                # the expected expression bytes hold the DIE offsets of the unit layout the model assumes
+                ctx.violation("listw:%s:die-layout" % vclass, "DIE offsets %s, the model's unit layout gives %s; %s" %
+                              (r.get("dieoffs"), pred["dieoffs"], where), case, run)
+                continue
             faithful = True
             for i, (l, got) in enumerate(zip(case["lists"], r["lists"])):
-                if got.get("t") != l["fam"] or strip_err(got.get("items")) != strip_err(case["meaning"][i]):
+                if got.get("t") != l["fam"] or strip_err(got.get("items")) != strip_err(meaning[i]):
                     faithful = False
                     bad = (i, got)
             if len(r["lists"]) != len(case["lists"]):
@@ -137,17 +143,17 @@ def check_chunk(ctx, cases, obs, base):
                     if "all-ones-begin" in whys:
                         ctx.violation("listw:pair-format:all-ones-begin-emitted-as-base-selector:%s" % fam,
                                       "an entry whose first word equals the all-ones base-address marker was written and reads back as a base-address selection: "
-                                      "list %s read back %s, meaning %s; %s" % (bad[0], json.dumps(bad[1])[:300], json.dumps(case["meaning"])[:300], where), case, run)
+                                      "list %s read back %s, meaning %s; %s" % (bad[0], json.dumps(bad[1])[:300], json.dumps(meaning)[:300], where), case, run)
                     else:
                         ctx.violation("listw:%s:unrepresentable-accepted-and-misread:%s" % (vclass, "+".join(whys)),
-                                      "list %s read back %s, meaning %s; %s" % (bad[0], json.dumps(bad[1])[:300], json.dumps(case["meaning"])[:300], where), case, run)
+                                      "list %s read back %s, meaning %s; %s" % (bad[0], json.dumps(bad[1])[:300], json.dumps(meaning)[:300], where), case, run)
                 else:
                     note_drift(ctx, {"where": "accepted-ambiguous-but-read-back-equal", "why": whys, "vclass": vclass})
                 continue
             if not faithful:
                 fam = case["lists"][bad[0]]["fam"] if bad[0] >= 0 else "?"
                 ctx.violation("listw:%s:%s:readback-differs" % (vclass, fam),
-                              "list %s read back %s, meaning %s; %s" % (bad[0], json.dumps(bad[1])[:300], json.dumps(case["meaning"])[:300], where), case, run)
+                              "list %s read back %s, meaning %s; %s" % (bad[0], json.dumps(bad[1])[:300], json.dumps(meaning)[:300], where), case, run)
             if r["other"] != 0:
                 ctx.violation("listw:%s:wrong-section" % vclass, "bytes were written to the list sections of the other version; %s" % where, case, run)
             if pred["ok"]:
@@ -222,8 +228,8 @@ def run(ctx):
         "other unrepresentable entries (value does not fit the address size, begin + length leaves the address space, first word equal to the all-ones "
         "base-address marker) are reported only when the write succeeds AND the read-back differs from the meaning; accepted-but-harmless cases are drift",
         "error kinds, exact section bytes and offsets are compared with the model as drift, not as violations",
-        "StartLength `begin + length` is an unchecked u64 addition in write_ranges/write_loc (panic with overflow checks): recorded as a C01 candidate",
-        "location expressions are raw byte strings (Expression::raw); expressions with entry references are not exercised by this check",
+        "location expressions are raw byte strings optionally ending with DW_OP_call4 / DW_OP_call_ref to the root or a child DIE (also forward); "
+        "the expected operand is the DIE offset of the unit layout the model assumes, which must equal the offsets gimli reports for the DIEs read back",
         "addresses are Address::Constant; symbolic addresses need a relocating writer and belong to C18",
     ]
     ctx.finish("model_checking",
